@@ -178,7 +178,7 @@ pub struct Scenario {
     pub fault: bool,
 }
 
-fn find_real_rustfmt() -> Option<PathBuf> {
+pub fn find_real_rustfmt() -> Option<PathBuf> {
     let path = std::env::var("PATH").unwrap_or_default();
     for d in path.split(':') {
         let p = Path::new(d).join("rustfmt");
